@@ -21,7 +21,7 @@ MANIFEST = {
     "level_note": "Trusted: Lean kernel; hand transcription of the handlers (checked only by the differential run); C19's Lean model of "
                   "store_pow_valid / sanitize_filename_hint (imported); hashed_token_identity taken as injective; the peer address is what "
                   "accept()/inet_ntop report (all generated traffic comes from 127.0.0.0/8, several distinct source addresses). 'No body byte "
-                  "consumed' is proved for the model and observed on the real server by withholding the body until the refusal arrives. "
+                  "consumed' is proved for the model and observed on the real server by withholding the body (a server that tried to read it would answer TRUNCATED, not TOO_LARGE). "
                   "ERR_STORE_POW_LOCKED is only a different error code in the code (no lock-out is enforced); that is modelled as is and "
                   "not part of the property. The window is read as closed ([t, t+30 s]); the code's `now - ts > 30 s` pruning satisfies it.",
     "technique": "Lean 4 proof (sliding-window invariant by induction over request histories; admission by case analysis) + "
@@ -87,7 +87,7 @@ def case_size(rng, big):
     n = rng.randint(5, 9) if not big else rng.randint(12, 24)
     for i in range(n):
         addr = (addr % 200) + 1   # a fresh address each time: the rate limit is not the subject here
-        k = rng.choice(["at", "at", "over", "under", "zero", "huge", "lie-short", "lie-long", "dup-first-big", "dup-last-big", "nolen", "far-over"])
+        k = rng.choice(["at", "at", "over", "under", "zero", "huge", "lie-short", "lie-long", "dup-first-big", "dup-last-big", "nolen", "far-over", "withheld-small"])
         if k == "at":
             ops.append(req(addr, store_lines(rng, cap), rnd_payload(rng, cap)))
         elif k == "under":
@@ -112,6 +112,8 @@ def case_size(rng, big):
             ops.append(req(addr, [b"COMMAND:STORE", b"PAYLOAD-LENGTH:4", b"payload-length:" + str(cap + 7).encode()], b"abcd", mode="early"))
         elif k == "nolen":
             ops.append(req(addr, [b"COMMAND:STORE", b"TTL:60"], b""))
+        elif k == "withheld-small":   # within the cap but the body never comes: truncated, nothing stored
+            ops.append(req(addr, store_lines(rng, max(1, cap // 2)), b"zz", mode="early"))
     ops.append(req(250, [b"COMMAND:LIST"]))
     return Case(ops=ops, tag="size")
 
@@ -306,7 +308,7 @@ def spec() -> Spec:
         search_budget={"quick": 500, "thorough": 6000},
         per_case_timeout=90.0,
         rule="8 shapes in rotation: payload sizes around a lowered cap (cap-1, cap, cap+1, 0, 2^32..2^64, lying lengths, duplicate "
-             "PAYLOAD-LENGTH; oversized bodies withheld until the refusal arrives), TTL texts at the window edges and at the int64 wrap, "
+             "PAYLOAD-LENGTH; the body of an oversized STORE is withheld: TOO_LARGE must come without it), TTL texts at the window edges and at the int64 wrap, "
              "store PoW nonces (valid; valid for the raw path / another size / another payload / one bit short; missing; malformed; "
              "lock-out counter), STORE sequences from 1-3 source addresses with varying TOKEN headers and clock advances aimed at "
              "first-accept + 30 s -1/0/+1 ns (no token configured, and with a configured token), streamed FETCH sequences likewise. "
